@@ -36,10 +36,13 @@ def fnv(h, data: bytes):
     return h
 
 
-def token_hash(tokens):
+def token_hash(tokens, canon=True):
+    """FNV-1a over the token sequence.  ``canon`` (as the C program does for
+    the command's hash atom and log) maps x<digits>__fresh to one name; content
+    digests of histories use canon=False."""
     h = FNV_OFF
     for t in tokens:
-        if FRESH.match(t):
+        if canon and FRESH.match(t):
             t = 'x#__fresh'
         h = fnv(h, t.encode('utf-8', 'surrogateescape'))
         h = fnv(h, b'\0')
@@ -282,4 +285,4 @@ def seq_with_comments_of_text(text):
 
 
 def full_digest_of_text(text):
-    return '%016x' % token_hash(seq_with_comments_of_text(text))
+    return '%016x' % token_hash(seq_with_comments_of_text(text), canon=False)
